@@ -93,6 +93,41 @@ pub fn run_c13(cfg: &RunCfg, trace: bool) -> RunOut {
             break;
         }
     }
+    // the same call sequence through the async port (every 4th run; no EmbeddedFS there)
+    if cx.out.violations.is_empty() && cfg.seed % 4 == 0 && !matches!(cfg.specs[0], crate::stack::Spec::Emb) {
+        use crate::asyncsim::*;
+        if let Ok(ab) = abuild(&cfg.specs[0], crate::rng::mix(cfg.order_seed, 0), cfg.permute, crate::rng::mix(cfg.seed, 0xA5), 40) {
+            let mut ax = AExec { root: ab.root.clone(), slots: Default::default() };
+            ab.ctl.on.store(true, Ordering::SeqCst);
+            cx.out.count("probe.c13.async_runs");
+            for (idx, op) in cfg.ops.iter().enumerate() {
+                let mut st = PollStats::default();
+                let r = ax.exec(op, &mut st);
+                cx.out.steps += 1;
+                cx.out.count(&format!("op.async.{}.{}", op.kind(), r.class()));
+                if let Res::Panic(m) = &r {
+                    if m.starts_with("EXECUTOR:") {
+                        continue;
+                    }
+                    let key = format!("C13|{}|async|panic:{}", shape, norm(m));
+                    cx.violate(idx + 1, key, format!("async step {} {:?} panicked: {}", idx + 1, op, m));
+                    break;
+                }
+            }
+            ab.ctl.on.store(false, Ordering::SeqCst);
+            if cx.out.violations.is_empty() {
+                let uni = cx.universe[0].clone();
+                if let Ok(s) = asnapshot(&ab, &uni) {
+                    if let Some(p) = s.panics.first() {
+                        let key = format!("C13|{}|async|observer|panic:{}", shape, norm(p));
+                        let n = cfg.ops.len();
+                        cx.violate(n, key, format!("an async observer panicked at the end: {}", p));
+                    }
+                }
+            }
+            ax.slots.clear();
+        }
+    }
     cx.out.signature = sig;
     cx.out.nontrivial = n_ok >= 3 && n_err >= 2;
     cx.out.state_hashes.push(sig);
